@@ -55,12 +55,19 @@ type World struct {
 	nextDisk int
 	allocRep map[Loc]*allocRep
 	releasedSinceBegin bool
+	accessCount        uint64
+	watchRules         map[string]*watchRule
 }
 
 type allocRep struct{ base, stride, k uint64 }
 
+type watchRule struct {
+	mu     string
+	fields map[string]bool
+}
+
 func newWorld() *World {
-	return &World{diskOf: map[Loc]*SymDisk{}, mutexes: map[Loc]bool{}, watch: map[string]bool{}, pos: 1, allocRep: map[Loc]*allocRep{}}
+	return &World{diskOf: map[Loc]*SymDisk{}, mutexes: map[Loc]bool{}, watch: map[string]bool{}, pos: 1, allocRep: map[Loc]*allocRep{}, watchRules: map[string]*watchRule{}}
 }
 
 func (w *World) event(ev Event) { w.events = append(w.events, ev) }
@@ -71,7 +78,11 @@ func (w *World) eventStrings() []string {
 		n := map[int]string{EvAcquire: "acq", EvRelease: "rel", EvAppend: "append", EvFlush: "flush", EvRawWrite: "rawwrite",
 			EvBegin: "begin", EvGo: "go", EvAlloc: "alloc", EvFree: "free", EvRawRead: "rawread", EvRefused: "refused",
 			EvMutex: "mutex", EvAccess: "access", EvMark: "mark", EvBarrier: "barrier"}[ev.Kind]
-		if ev.Kind == EvAccess || ev.Kind == EvMutex {
+		if ev.Kind == EvMutex {
+			continue
+		}
+		if ev.Kind == EvAccess {
+			out = append(out, "unlocked-access@"+ev.Site)
 			continue
 		}
 		s := n
@@ -286,6 +297,7 @@ func rtStubs(m map[string]stubFn) {
 	m[RT+"AllocRep"] = func(e *Engine, fn *ssa.Function, a []Value) Value {
 		l := a[0].(IfaceV).v.(Ptr).loc
 		e.world.allocRep[l] = &allocRep{base: a[1].(*Term).C, stride: a[2].(*Term).C}
+		_ = a[3]
 		return nil
 	}
 	m[RT+"Mark"] = func(e *Engine, fn *ssa.Function, a []Value) Value {
@@ -293,9 +305,20 @@ func rtStubs(m map[string]stubFn) {
 		return nil
 	}
 	m[RT+"Watch"] = func(e *Engine, fn *ssa.Function, a []Value) Value {
-		e.world.watch[strName(a[0])] = true
+		// "pkg.Type" (inode-lock rule) or "pkg.Type|mu|f1,f2" (fields f1,f2 protected by mutex field mu)
+		// or "pkg.Type|atomic|f1,f2" (fields only accessed through sync/atomic)
+		parts := strings.Split(strName(a[0]), "|")
+		e.world.watch[parts[0]] = true
+		if len(parts) == 3 {
+			r := &watchRule{mu: parts[1], fields: map[string]bool{}}
+			for _, f := range strings.Split(parts[2], ",") {
+				r.fields[f] = true
+			}
+			e.world.watchRules[parts[0]] = r
+		}
 		return nil
 	}
+	m[RT+"AccessCount"] = func(e *Engine, fn *ssa.Function, a []Value) Value { return c64(e.world.accessCount) }
 	m[RT+"Events"] = func(e *Engine, fn *ssa.Function, a []Value) Value {
 		// materialise []verifrt.Event{Kind, A, B uint64; Obj interface{}}
 		el := fn.Signature.Results().At(0).Type().Underlying().(*types.Slice).Elem()
@@ -687,36 +710,106 @@ func stubSortSlice(e *Engine, fn *ssa.Function, a []Value) Value {
 // ---- access monitors (C03/C14): watched struct types record field accesses
 func (e *Engine) noteAccess(p Ptr, write bool) {}
 
-func (e *Engine) noteField(sl *StructLoc, x *ssa.FieldAddr, fr *frame) {
+func (e *Engine) watchedField(x *ssa.FieldAddr) bool {
 	if len(e.world.watch) == 0 {
-		return
+		return false
+	}
+	// accesses made by harness code itself are not the server's
+	if fn := x.Parent(); fn != nil {
+		if strings.Contains(e.prog.Fset.Position(fn.Pos()).Filename, "zz_verif_") {
+			return false
+		}
 	}
 	pt, ok := x.X.Type().Underlying().(*types.Pointer)
 	if !ok {
-		return
+		return false
 	}
 	named, ok := pt.Elem().(*types.Named)
-	if !ok {
+	if !ok || named.Obj().Pkg() == nil {
+		return false
+	}
+	return e.world.watch[named.Obj().Pkg().Path()+"."+named.Obj().Name()]
+}
+
+func (e *Engine) noteField(sl *StructLoc, x *ssa.FieldAddr, fr *frame) {
+	if !e.watchedField(x) {
 		return
 	}
-	name := named.Obj().Pkg().Path() + "." + named.Obj().Name()
-	if !e.world.watch[name] {
-		return
-	}
-	// classify read/write by the referrers of the address
-	write := false
-	if refs := x.Referrers(); refs != nil {
-		for _, r := range *refs {
-			if st, ok := r.(*ssa.Store); ok && st.Addr == x {
-				write = true
+	st := x.X.Type().Underlying().(*types.Pointer).Elem().Underlying().(*types.Struct)
+	named := x.X.Type().Underlying().(*types.Pointer).Elem().(*types.Named)
+	if rule, ok := e.world.watchRules[named.Obj().Pkg().Path()+"."+named.Obj().Name()]; ok {
+		fname := st.Field(x.Field).Name()
+		if !rule.fields[fname] || strings.HasPrefix(fr.fn.Name(), "Mk") {
+			return // not a protected field, or the constructor initialising a still private object
+		}
+		e.world.accessCount++
+		if rule.mu == "atomic" {
+			// the address may only flow into sync/atomic calls
+			okAtomic := true
+			if refs := x.Referrers(); refs != nil {
+				for _, r := range *refs {
+					c, isCall := r.(*ssa.Call)
+					if !isCall || c.Call.StaticCallee() == nil || c.Call.StaticCallee().Pkg == nil || c.Call.StaticCallee().Pkg.Pkg.Path() != "sync/atomic" {
+						if _, dbg := r.(*ssa.DebugRef); !dbg {
+							okAtomic = false
+						}
+					}
+				}
+			}
+			if !okAtomic {
+				e.world.event(Event{Kind: EvAccess, A: c64(0), B: c64(uint64(x.Field)), Site: e.pos2(x.Pos(), fr.fn)})
+			}
+			return
+		}
+		for i := 0; i < st.NumFields(); i++ {
+			if st.Field(i).Name() == rule.mu {
+				mp, _ := sl.f[i].Load().(Ptr)
+				if mp.loc == nil || !e.world.mutexes[mp.loc] {
+					e.world.event(Event{Kind: EvAccess, A: c64(0), B: c64(uint64(x.Field)), Site: e.pos2(x.Pos(), fr.fn)})
+				}
 			}
 		}
+		return
 	}
-	w := c64(0)
-	if write {
-		w = c64(1)
+	// inode rule: the object's Inum field against the inode locks currently held.
+	// Only accesses that are not trivially covered are recorded (A = 1 iff covered).
+	var inum *Term
+	for i := 0; i < st.NumFields(); i++ {
+		if st.Field(i).Name() == "Inum" {
+			inum, _ = sl.f[i].Load().(*Term)
+		}
 	}
-	e.world.event(Event{Kind: EvAccess, A: w, B: c64(uint64(x.Field)), Obj: IfaceV{t: x.X.Type(), v: Ptr{loc: sl}}, Site: e.pos2(x.Pos(), fr.fn)})
+	// only accesses made on behalf of a request (or of the shrinker thread) are of interest
+	inReq := false
+	for i := len(e.stack) - 1; i >= 0; i-- {
+		f := e.stack[i]
+		if strings.Contains(e.prog.Fset.Position(f.Pos()).Filename, "zz_verif_") {
+			break // called from harness code (a hook or the harness body), not by the server
+		}
+		n := f.Name()
+		if strings.HasPrefix(n, "NFSPROC3_") || n == "shrinker" || n == "DoShrink" {
+			inReq = true
+			break
+		}
+	}
+	if !inReq {
+		return
+	}
+	if st.Field(x.Field).Name() == "Inum" {
+		return // immutable once the object exists: reading it needs no lock
+	}
+	e.world.accessCount++
+	if inum == nil || (inum.Op == "c" && inum.C == 0) {
+		return // not yet numbered: the object is still private to its creator
+	}
+	locked := BoolC(false)
+	for _, h := range e.world.held {
+		locked = Or(locked, Cmp("=", h, inum))
+	}
+	if locked.IsTrue() {
+		return
+	}
+	e.world.event(Event{Kind: EvAccess, A: Ite(locked, c64(1), c64(0)), B: c64(uint64(x.Field)), C: ZExt(64, inum), Site: e.pos2(x.Pos(), fr.fn)})
 }
 
 // initGlobal gives selected package-level variables their initial values (package init functions are not run).
